@@ -246,6 +246,44 @@ func c01Run(e *core.Env) {
 		})
 		e.SetBound("journal_depth_"+pl.tag, pl.n)
 	}
+	if e.Take() {
+		// The explorer treats a processor callback as atomic. Whether the stages of the
+		// per-day pipeline share mutable data without synchronisation (which would let a
+		// report be built from half-updated postings) is decided by the race detector on
+		// free-running executions of the valued accrual scenarios, ...
+		raceTier(e, core.Pick(e, 4, 20), "C01", "pipe-accrual")
+		// ... and the Delta row of a long valued accrual journal is observed on the real
+		// binary (each of its days is a chance for two stages to overlap).
+		c01FreeRunning(e, drv)
+	}
+}
+
+func c01FreeRunning(e *core.Env, drv *core.Driver) {
+	var b strings.Builder
+	b.WriteString("2019-01-01 open Assets:Bank\n2019-01-01 open Assets:Prepaid\n2019-01-01 open Expenses:Rent\n")
+	d := time.Date(2019, 1, 1, 0, 0, 0, 0, time.UTC)
+	for i := 0; i < 730; i++ {
+		fmt.Fprintf(&b, "%s price USD 0.%02d CHF\n", d.AddDate(0, 0, i).Format("2006-01-02"), 75+(i*7)%23)
+	}
+	b.WriteString("@accrue daily 2019-01-01 2020-12-30 Assets:Prepaid\n2019-01-01 \"rent\"\nAssets:Bank Expenses:Rent 73000 USD\n")
+	drv.Files(map[string]string{"j.knut": b.String()})
+	reps := core.Pick(e, 6, 30)
+	for i := 0; i < reps; i++ {
+		o := drv.RunBinary("balance", "-v", "CHF", "--years", "--csv", "j.knut")
+		e.Count("evaluations")
+		e.Count("free_running_binary_runs")
+		if o.Exit != 0 {
+			e.Violation("C01:free-running-failure", o.Stderr, map[string]string{"scenario": "two-year daily accrual"}, nil)
+			return
+		}
+		for _, ln := range strings.Split(o.Stdout, "\n") {
+			if strings.HasPrefix(ln, "Delta") && strings.Trim(ln[len("Delta"):], ",0") != "" {
+				e.Violation("C01:delta-nonzero:free-running", "run "+fmt.Sprint(i+1)+" of `balance -v CHF --years --csv` on a two-year daily accrual with daily price changes prints: "+ln,
+					map[string]string{"scenario": "two-year daily accrual", "row": ln}, nil)
+				return
+			}
+		}
+	}
 }
 
 func c01Replay(e *core.Env, data json.RawMessage) (bool, string) {
